@@ -176,6 +176,9 @@ func within(context *api.Context, a b6.Area) (b6.Query, error) {
 // Return a query that will match features that intersect a spherical cap centred on the given point, with the given radius in meters.
 // Deprecated. Use intersecting-cap.
 func withinCap(context *api.Context, point b6.Geometry, radius float64) (b6.Query, error) {
+	if err := requireGeometry("within-cap", point); err != nil {
+		return nil, err
+	}
 	return b6.NewIntersectsCap(s2.CapFromCenterAngle(point.Point(), b6.MetersToAngle(radius))), nil
 }
 
